@@ -16,6 +16,8 @@
 #include <deque>
 #include <iterator>
 #include <string>
+#include <type_traits>
+#include <utility>
 #include <vector>
 
 namespace c15 {
@@ -30,8 +32,14 @@ inline int family_of(const char* s) {
     return -1;
 }
 
+//! pass `x` on as an lvalue (copied by the by-value parameter of the entry point) or as an rvalue (moved into it)
+template <bool Rv, typename T>
+typename std::conditional<Rv, T&&, T&>::type pass_as(T& x) {
+    return static_cast<typename std::conditional<Rv, T&&, T&>::type>(x);
+}
+
 #define C15_ARR(NS, N) \
-    case N: tlx::sort_networks::NS::sort##N(a, cs); return true;
+    case N: tlx::sort_networks::NS::sort##N(a, pass_as<Rv>(cs)); return true;
 
 #define C15_P2 a[0], a[1]
 #define C15_P3 C15_P2, a[2]
@@ -49,7 +57,7 @@ inline int family_of(const char* s) {
 #define C15_P15 C15_P14, a[14]
 #define C15_P16 C15_P15, a[15]
 #define C15_PAR(N) \
-    case N: tlx::sort_networks::bose_nelson_parameter::sort##N(C15_P##N, cs); return true;
+    case N: tlx::sort_networks::bose_nelson_parameter::sort##N(C15_P##N, pass_as<Rv>(cs)); return true;
 
 #define C15_ALL(M, ...)                                                                         \
     M(__VA_ARGS__ 2) M(__VA_ARGS__ 3) M(__VA_ARGS__ 4) M(__VA_ARGS__ 5) M(__VA_ARGS__ 6)          \
@@ -60,7 +68,7 @@ inline int family_of(const char* s) {
 #define C15_ARR_BN(N) C15_ARR(bose_nelson, N)
 
 //! call the size-specific network directly; false if no such function exists
-template <typename It, typename CSwap>
+template <bool Rv = false, typename It, typename CSwap>
 bool call_direct(int fam, int n, It a, CSwap cs) {
     switch (fam) {
     case BEST:
@@ -107,22 +115,66 @@ bool call_dispatch_default(int fam, int n, It a) {
 }
 
 //! call the size-dispatching entry point (precondition 0 <= n <= 16, else tlx abort()s)
-template <typename It, typename Cmp>
+template <bool Rv = false, typename It, typename Cmp>
 bool call_dispatch(int fam, int n, It a, Cmp cmp) {
     if (n < 0 || n > 16) return false;
     switch (fam) {
-    case BEST: tlx::sort_networks::best::sort(a, a + n, cmp); return true;
-    case BOSE_NELSON: tlx::sort_networks::bose_nelson::sort(a, a + n, cmp); return true;
-    case BOSE_NELSON_PARAMETER: tlx::sort_networks::bose_nelson_parameter::sort(a, a + n, cmp); return true;
+    case BEST: tlx::sort_networks::best::sort(a, a + n, pass_as<Rv>(cmp)); return true;
+    case BOSE_NELSON: tlx::sort_networks::bose_nelson::sort(a, a + n, pass_as<Rv>(cmp)); return true;
+    case BOSE_NELSON_PARAMETER: tlx::sort_networks::bose_nelson_parameter::sort(a, a + n, pass_as<Rv>(cmp)); return true;
     }
     return false;
 }
 
-//! either entry point with tlx's own CS_IfSwap around `cmp` (entry 0 = direct, 1 = dispatch)
-template <typename It, typename Cmp>
+#define C15_ARR_AS(NS, N) \
+    case N: tlx::sort_networks::NS::sort##N<It, CSwap>(a); return true;
+#define C15_ARR_AS_BEST(N) C15_ARR_AS(best, N)
+#define C15_ARR_AS_BN(N) C15_ARR_AS(bose_nelson, N)
+#define C15_PAR_AS(N)                                                                                       \
+    case N:                                                                                                 \
+        tlx::sort_networks::bose_nelson_parameter::sort##N<typename std::iterator_traits<It>::value_type,   \
+                                                           CSwap>(C15_P##N);                                \
+        return true;
+
+//! direct call with a *default-constructed* compare-exchange functor of the given type (`CSwap cswap = CSwap()`)
+template <typename CSwap, typename It>
+bool call_direct_default_as(int fam, int n, It a) {
+    switch (fam) {
+    case BEST:
+        switch (n) { C15_ALL(C15_ARR_AS_BEST) default: return false; }
+    case BOSE_NELSON:
+        switch (n) { C15_ALL(C15_ARR_AS_BN) default: return false; }
+    case BOSE_NELSON_PARAMETER:
+        switch (n) { C15_ALL(C15_PAR_AS) default: return false; }
+    }
+    return false;
+}
+
+//! dispatching call with a default-constructed comparator of the given type (`Comparator cmp = Comparator()`)
+template <typename Cmp, typename It>
+bool call_dispatch_default_as(int fam, int n, It a) {
+    if (n < 0 || n > 16) return false;
+    switch (fam) {
+    case BEST: tlx::sort_networks::best::sort<It, Cmp>(a, a + n); return true;
+    case BOSE_NELSON: tlx::sort_networks::bose_nelson::sort<It, Cmp>(a, a + n); return true;
+    case BOSE_NELSON_PARAMETER: tlx::sort_networks::bose_nelson_parameter::sort<It, Cmp>(a, a + n); return true;
+    }
+    return false;
+}
+
+//! either entry point with tlx's own CS_IfSwap around `cmp` (entry 0 = direct, 1 = dispatch);
+//! Rv: the functor / comparator is handed to tlx as an rvalue (temporary) instead of an lvalue
+template <bool Rv = false, typename It, typename Cmp>
 bool call(int fam, int entry, int n, It a, Cmp cmp) {
-    if (entry == 0) return call_direct(fam, n, a, tlx::sort_networks::CS_IfSwap<Cmp>(cmp));
-    return call_dispatch(fam, n, a, cmp);
+    if (entry == 0) return call_direct<Rv>(fam, n, a, tlx::sort_networks::CS_IfSwap<Cmp>(pass_as<Rv>(cmp)));
+    return call_dispatch<Rv>(fam, n, a, pass_as<Rv>(cmp));
+}
+
+//! either entry point with a default-constructed comparator of type Cmp
+template <typename Cmp, typename It>
+bool call_default_as(int fam, int entry, int n, It a) {
+    if (entry == 0) return call_direct_default_as<tlx::sort_networks::CS_IfSwap<Cmp> >(fam, n, a);
+    return call_dispatch_default_as<Cmp>(fam, n, a);
 }
 
 inline bool exists(int /*fam*/, int entry, int n) {
